@@ -292,7 +292,20 @@ def rule_prec(ctx):
     v = printers.evaluate(fx, fb).value
     arms = {a[0]: a[-1] for a in v[2]} if v[0] == "match" else {}
     q = arms.get("Formula::QuantifiedFormula{}")
-    ctx.add("PRN-T", "quantified-body", q is not None and q[:2] == ("write", "{}: ({})"), ctx.site(fb), "Q[..]: (body) - the body of a quantifier is always parenthesised")
+    okq = q is not None and q[:2] == ("write", "{}: ({})")
+    if not okq:
+        # the same text written in pieces (the operator through fmt_operator, then the parenthesised body): evaluated on a quantified node
+        evq = sym.Eval(fx, inline_depth=2, inline=lambda dp: dp.endswith("::fmt_operator"))
+        qn = ("ctor", "Formula::QuantifiedFormula", (("formula", ("param", "$g")), ("quantification", ("param", "$q"))))
+        evq.function(fb, [("ctor", "Format", (("0", qn),)), ("param", "$f")])
+        ws = []
+        for o in evq.out:
+            if o[2][0] == "write" and not (ws and ws[-1] == o[2]):      # the tail expression of the block is recorded as effect and as value
+                ws.append(o[2])
+        text = "".join(w_[1] for w_ in ws)
+        args_ = [a_ for w_ in ws for a_ in w_[2]]
+        okq = text == "{}: ({})" and len(args_) == 2 and "$q" in repr(args_[0]) and "$g" not in repr(args_[0]) and "$g" in repr(args_[1]) and not [o for o in evq.out if o[2][0] == "emit" and o[2][1] != "Precedence::fmt_operator"]
+    ctx.add("PRN-T", "quantified-body", okq, ctx.site(fb), "Q[..]: (body) - the body of a quantifier is always parenthesised")
     un = arms.get("Formula::UnaryFormula{}")
     bi = arms.get("Formula::BinaryFormula{}")
     ok = un is not None and un[:2] == ("call", "Precedence::fmt_unary") and bi is not None and bi[:2] == ("call", "Precedence::fmt_binary") and \
